@@ -4,8 +4,8 @@ import LekkerVerif.Proofs.BlocksTie
 
 /-! # C09 — library blocks implement their documented physics; uniform model interface
 
-Interface part: facts the translator reads syntactically from `/repo/lekkersim/model.py` on every run
-(`Generated/Tables.lean`), decided over the whole finite table.  Physics part: the theorems below are about the
+Interface part: facts the translator establishes on every run by instantiating every documented block class of the
+current source with int / float / numpy-typed arguments (`Generated/Tables.lean`), decided over the whole finite table.  Physics part: the theorems below are about the
 matrices of `Generated/Blocks.lean`, which the translator obtains on every run by executing the block classes of the
 current source with symbolic parameters (`harness/translate/blocks.py`); `Proofs/BlocksTie.lean` identifies each
 traced matrix with a hand-written closed form (`Proofs/Blocks.lean`) by a script that tolerates re-association and
@@ -13,19 +13,6 @@ equivalent spellings, and the physics is proved for *all* real parameter values 
 formula that changes its meaning breaks the identification (the obligation no longer builds). -/
 
 namespace C09
-
-/-- numeric type of the expression a format spec is applied to -/
-inductive NumTy | anyNumber | float deriving DecidableEq, Repr
-
-def exprTy (isFloatCall : Bool) : NumTy := if isFloatCall then .float else .anyNumber
-
-/-- the fragment of CPython's format mini-language used by the blocks' `__str__` (a finite table, compared
-with the real `format()` by the harness): fixed-point specs accept ints and floats; a bare precision
-(general format) is rejected for ints; a spec that is not in the table is not accepted -/
-def fmtOk (t : NumTy) (spec : String) : Bool :=
-  if spec = ".3f" ∨ spec = ".2f" ∨ spec = ".4f" ∨ spec = ".3e" ∨ spec = ".3g" then true
-  else if spec = ".3" ∨ spec = ".2" ∨ spec = ".4" then t == .float
-  else false
 
 /-- every documented block class builds its pin-name table at construction (calls `update_pins()`),
 so it can be placed and wired by pin name -/
@@ -36,11 +23,9 @@ theorem C09_interface_uniform :
 theorem C09_blocks_present :
     ∀ n ∈ Generated.docBlocks, ∃ b ∈ Generated.blocks, b.1 = n ∧ b.2.2 ≠ "missing" := by decide
 
-/-- every format spec used in a `__str__` accepts whatever numeric type the argument may have -/
-theorem C09_str_specs : ∀ s ∈ Generated.strSpecs, fmtOk (exprTy s.2.2.2) s.2.2.1 = true := by decide
-
-/-- non-vacuity of `fmtOk`: the spec that failed on the pinned tree is rejected for an int-typed argument -/
-example : fmtOk (exprTy false) ".3" = false ∧ fmtOk (exprTy true) ".3" = true := by decide
+/-- every documented block class can be printed whatever numeric types its arguments have -/
+theorem C09_str_specs : (∀ s ∈ Generated.strOk, s.2 = true) ∧ ∀ n ∈ Generated.docBlocks, ∃ s ∈ Generated.strOk, s.1 = n := by
+  decide
 
 open Matrix
 open Generated.Blocks
